@@ -73,7 +73,7 @@ DEFS_FOR = {
     "C01": ["_save", "_save_to_resource"],
     "C02": ["_load", "_load_from_resource", "_update"],
     "C03": ["_load", "_save"],
-    "C04": ["_load", "_save", "_load_from_resource", "_save_to_resource"],
+    "C04": ["_load", "_save", "_load_from_resource", "_save_to_resource", "_update"],
     "C10": ["_load", "_save"],
     "C17": ["_load", "_load_from_resource"],
 }
